@@ -142,6 +142,19 @@ func (tr *seqTransport) RoundTrip(creq *http.Request) (*http.Response, error) {
 	tr.lastReq = sreq
 	ex.judgeExchange(tr.idx, st, xc)
 
+	if xc.Panic != "" {
+		// what net/http does with a handler that panics: the connection is torn
+		// down. Before anything was written the client sees no answer at all;
+		// afterwards it sees the answer break off
+		if len(rb) == 0 && !rec.Flushed {
+			return nil, fmt.Errorf("vsim: the server closed the connection without an answer (its handler panicked): %w", io.ErrUnexpectedEOF)
+		}
+		return &http.Response{
+			Status: fmt.Sprintf("%d %s", res.StatusCode, http.StatusText(res.StatusCode)), StatusCode: res.StatusCode,
+			Proto: "HTTP/1.1", ProtoMajor: 1, ProtoMinor: 1, Header: res.Header.Clone(),
+			Body: &FaultBody{Data: rb, Fault: &Fault{Seam: "resp", At: len(rb), Kind: "unexpected-eof"}}, ContentLength: -1, Request: creq,
+		}, nil
+	}
 	out := &http.Response{
 		Status: fmt.Sprintf("%d %s", res.StatusCode, http.StatusText(res.StatusCode)), StatusCode: res.StatusCode,
 		Proto: "HTTP/1.1", ProtoMajor: 1, ProtoMinor: 1, Header: res.Header.Clone(),
